@@ -173,7 +173,8 @@ def _decode_channel_into(chunk, channel, buf, block_size):
         lookup_table = np.frombuffer(
             buf[lookup_table_offset:lookup_table_past_end], dtype=chunk.dtype)
         if bits == 0:
-            block = np.empty(block_size, dtype=chunk.dtype)
+            block = np.empty((block_size[2], block_size[1], block_size[0]),
+                             dtype=chunk.dtype)
             try:
                 block[...] = lookup_table[0]
             except IndexError as exc:
